@@ -135,6 +135,57 @@ def lean_build_and_audit(log):
         return res
 
 
+def module_closure(root_module):
+    """TCV modules a module imports, transitively (by reading the `import TCV.` lines)"""
+    seen, todo = [], [root_module]
+    while todo:
+        m = todo.pop()
+        if m in seen:
+            continue
+        seen.append(m)
+        f = LEAN / (m.replace('.', '/') + '.lean')
+        if f.exists():
+            for line in f.read_text().splitlines():
+                mm = re.match(r'import (TCV\.[\w.]+)', line.strip())
+                if mm:
+                    todo.append(mm.group(1))
+    return sorted(seen)
+
+
+def leanchecker(pid):
+    """thorough tier: Lean's independent re-checker replays the compiled declarations of the property's theorem file and of
+    every TCV module it imports.  Cached by source hash."""
+    mods = module_closure(f'TCV.Props.{pid}')
+    for n in theorem_table().get(pid, []):
+        # theorems registered from lemma files
+        parts = n.split('.')
+        for k in range(len(parts) - 1, 1, -1):
+            cand = '.'.join(parts[:k])
+            for pre in ('TCV.Lemmas.', 'TCV.Props.', 'TCV.Model.'):
+                pass
+    lock_path = LEAN / '.build.lock'
+    with open(lock_path, 'w') as lk:
+        fcntl.flock(lk, fcntl.LOCK_EX)
+        sh = source_hash()
+        cache_file = LEAN / '.lake' / 'leanchecker_cache.json'
+        cache = {}
+        if cache_file.exists():
+            try:
+                cache = json.loads(cache_file.read_text())
+            except Exception:
+                cache = {}
+        if cache.get('source_hash') != sh:
+            cache = {'source_hash': sh, 'ok_modules': []}
+        todo = [m for m in mods if m not in cache['ok_modules']]
+        if todo:
+            r = subprocess.run(['lake', 'env', 'leanchecker'] + todo, cwd=LEAN, capture_output=True, text=True)
+            if r.returncode != 0:
+                return {'ok': False, 'detail': 'leanchecker failed:\n' + (r.stdout + r.stderr)[-2000:], 'modules': mods}
+            cache['ok_modules'] = sorted(set(cache['ok_modules']) | set(todo))
+            cache_file.write_text(json.dumps(cache))
+        return {'ok': True, 'modules': mods}
+
+
 class Model:
     """the compiled Lean model behind the JSON-lines protocol"""
 
@@ -252,6 +303,11 @@ def run_check(pid, tier, module):
         print(f'BROKEN-CHECK: no theorems registered for {pid}')
         return 2
     lean = lean_build_and_audit(log)
+    lc = None
+    if tier == 'thorough' and lean['ok']:
+        lc = leanchecker(pid)
+        if not lc['ok']:
+            lean = dict(lean, ok=False, detail=lc['detail'])
     ctx = Ctx(pid, tier, seed, budget)
     exit_code = 0
     lines = []
@@ -317,6 +373,7 @@ def run_check(pid, tier, module):
             'disagreements_checked': len(ctx.divergences),
             'model_calls': ctx.model.calls,
             'known_finding_hits': ctx.known_hits,
+            'leanchecker': (None if lc is None else {'ok': lc['ok'], 'modules_rechecked': lc['modules']}),
             'notes': ctx.notes,
         }
         ev = {'property_id': pid, 'tier': tier, 'seed': seed, 'level': 'proof', 'coverage': cov,
